@@ -427,6 +427,11 @@ def prop3_specs(tier):
                 for sopt in opts:
                     props = [base_opt] + [None] * (len(classes) - 2) + [{"ext_setter": list(sopt)}]
                     out.append({"family": "prop3", "shape": shape, "props": props})
+                    # ... and with class invariants on the root, on the extending class, or on both: every accessor of every
+                    # class must be surrounded by the invariants of the whole ancestry
+                    if base_opt == pc[1] or base_opt == pc[-1]:
+                        for inv in ([classes[0][0]], [classes[-1][0]], [classes[0][0], classes[-1][0]]):
+                            out.append({"family": "prop3", "shape": shape, "props": props, "inv": inv})
     return out
 
 
@@ -464,6 +469,8 @@ def render_prop3(spec):
                 body += head + decos + [sig, "    LOG.append(('body', '{}.{}'))".format(cls, tag)] + (["    return 1"] if tag == "g" else [])
         if not body:
             body = ["pass"]
+        if cls in spec.get("inv", ()):
+            w.append("def i_{0}(self):\n    LOG.append(('inv', 'i_{0}'))\n    return True\n@icontract.invariant(i_{0})\n".format(cls))
         w.append("class {}({}):\n".format(cls, ", ".join(bases) if bases else "icontract.DBC") + "".join("    " + ln + "\n" for ln in body))
     return "".join(w)
 
@@ -481,6 +488,7 @@ def check_prop3(spec, acc):
     must = [c for r in refs.values() for c, v in r.def_error.items() if v == "must"]
     may = [c for r in refs.values() for c, v in r.def_error.items() if v == "may"]
     f0 = {"family": "prop3", "shape": spec["shape"],
+          "inv": "+".join(spec.get("inv", [])) or None,
           "props": "/".join("-" if p is None else ("ext_s{}{}".format(*p["ext_setter"]) if isinstance(p, dict) else "".join("{}{}".format(*o) for o in p))
                             for p in spec["props"])}
     ns, def_exc = None, None
@@ -549,6 +557,12 @@ def check_prop3(spec, acc):
                             bad = ("postcondition_violation_missed", "falsy {} outcome {!r}".format(falsy, exc))
                     elif exc is None or not type(exc).__name__.startswith("E_" + tag + "p_"):
                         bad = ("wrong_error", repr(exc))
+                    if not bad and spec.get("inv"):
+                        want_inv = sorted("i_" + k for k in ref.mro[cls] if k in spec["inv"]) * (1 if exc is not None else 2)
+                        got_inv = sorted(e[1] for e in log if e[0] == "inv")
+                        if sorted(want_inv) != got_inv:
+                            bad = ("invariant_set", "{} of {}: expected the invariants {} around the call, evaluated {}".format(
+                                accname, cls, sorted(want_inv), got_inv))
                     if bad:
                         acc.violation(core.Violation(PROP, bad[0], feats, bad[1] + " falsy={} log={}".format([k for k, v in truth.items() if not v], log),
                                                      spec={"spec": spec, "cls": cls, "accessor": tag, "truth": truth}, script=src))
